@@ -16,7 +16,7 @@ struct FrameModelListener : Listener {
     std::vector<SFrame> pre;         // stored frames before the op
     SFrame given;                    // caller's frame before the call (fsub)
     std::vector<SFrame> givenCol;    // caller's column vector before the call
-    size_t indexed = 0, columns = 0, resubmits = 0, mutationsObserved = 0, appends = 0, declWithData = 0;
+    size_t indexed = 0, columns = 0, resubmits = 0, mutationsObserved = 0, appends = 0, declWithData = 0, selfSubmits = 0;
     std::set<size_t> submittedSlots; bool slotDirty[4] = {false, false, false, false};
     FrameModelListener(CaseResult &rr, bool cci) : r(rr), checkCallerIndependence(cci) {}
 
@@ -31,6 +31,7 @@ struct FrameModelListener : Listener {
             size_t slot = static_cast<size_t>((op.arg(0) < 0 ? -op.arg(0) : op.arg(0)) % 4);
             given = takeFrame(in.slots[slot]);
         }
+        if (op.code == "selfsub" && !pre.empty()) given = pre[static_cast<size_t>(op.arg(0) < 0 ? -op.arg(0) : op.arg(0)) % pre.size()];
     }
     void fail(const std::string &m, size_t i, const Op &op) { r.fail("after op " + std::to_string(i) + " (" + op.code + "): " + m); stop = true; }
     void after(Interp &in, const Op &op, size_t i, const Outcome &o) override {
@@ -38,7 +39,15 @@ struct FrameModelListener : Listener {
         std::vector<SFrame> post = stored(in);
         const std::string &k = op.code;
         if (o.threw) return;   // refusals are C10's business
-        if (k == "fsub" || k == "fsubx") {
+        if (k == "selfsub") {
+            std::vector<SFrame> want = pre;
+            if (o.note.rfind("append", 0) == 0) { want.push_back(given); ++appends; }
+            else if (o.note.rfind("replace", 0) == 0) { size_t idx = static_cast<size_t>(atoll(o.note.c_str() + 8)); want[idx] = given; ++indexed; }
+            else if (o.note.rfind("extend", 0) == 0) { size_t idx = static_cast<size_t>(atoll(o.note.c_str() + 7)); want.resize(idx + 1); want[idx] = given; ++indexed; }
+            std::string d = firstDiff(framesText(want), framesText(post));
+            if (!d.empty()) { fail("handing a stored frame back to the object (" + o.note + ") did not give the documented result: " + d, i, op); return; }
+            ++selfSubmits;
+        } else if (k == "fsub" || k == "fsubx") {
             size_t slot = static_cast<size_t>((op.arg(0) < 0 ? -op.arg(0) : op.arg(0)) % 4);
             std::vector<SFrame> want = pre;
             if (o.note.rfind("append", 0) == 0) { want.push_back(given); ++appends; }
